@@ -23,6 +23,7 @@ overflow, stack, memory, time) are only covered by the outcome search of checks/
 import Circomspect.Lemmas.DesugarLemmas
 import Circomspect.Props.C12
 import Circomspect.Lemmas.SsaWalkLemmas
+import Circomspect.Lemmas.CfgReachLemmas
 
 namespace Circomspect.C01
 open Circomspect Desugar
@@ -117,5 +118,22 @@ theorem C01_ssa_depth (c : SsaBuild.PCfg) (P : SsaBuild.Phis) (idom : Nat → Na
 theorem C01_ssa_scopes_nonempty {f : SsaWalk.Frames → SsaWalk.Frames} (h : SsaWalk.ScopeOps f)
     (top : List (Ssa.Var × Nat)) (rest : SsaWalk.Frames) : ∃ top', f (top :: rest) = top' :: rest :=
   SsaWalk.scopeOps_tail h top rest
+
+/-- time in proportion to the input (repairs a7712ea, 7abcad3): the work lists behind `multi_step_taint`, `multi_step_constraint`,
+    `get_successors`, `get_predecessors` and `get_interval` pop one entry per iteration and push entries only when a variable or
+    block is expanded for the first time, so they stop after at most (entries at the start + edges + 1) iterations — for every
+    graph and every start. (The loops they replaced re-expanded the whole frontier in every round.) -/
+theorem C01_worklist_linear (es : List (Nat × Nat)) (work result : List Nat) :
+    ∃ r, Taint.workLoop es (work.length + es.length + 1) work result = some r := by
+  apply Taint.workLoop_terminates
+  have h : (List.filter (fun e => !result.contains e.1) es).length ≤ es.length := List.length_filter_le _ _
+  unfold Taint.pending
+  exact Nat.lt_succ_of_le (Nat.add_le_add_left h _)
+
+/-- the reachability helpers of the CFG return within their budget, and return exactly the reachable blocks -/
+theorem C01_cfg_reachability (es : List (Nat × Nat)) (starts : List Nat) :
+    (∃ r, Taint.workLoop es (Taint.closureFuel es starts.length) starts [] = some r) ∧
+    ∀ x, x ∈ CfgReach.closure es starts ↔ ∃ s, s ∈ starts ∧ Taint.Reach es s x :=
+  ⟨CfgReach.closure_returns es starts, CfgReach.closure_spec es starts⟩
 
 end Circomspect.C01
